@@ -24,11 +24,26 @@ var (
 	hServedID      did.DID
 	hServedBody    = "{doc}"
 	hUnmarshalled  int
+	// hServedDraw: the served document is drawn when (and only if) Resolve gets as far as parsing it
+	hServedDraw bool
+	hAskedID    string
 )
 
 func hDocUnmarshal(d *did.Document, data []byte) error {
 	hUnmarshalled++
 	vAssert(string(data) == hServedBody, "H18c.body_passed_on: the bytes parsed are not the bytes the server sent")
+	if hServedDraw {
+		hServedInvalid = vBool()
+		switch vChoice(3) {
+		case 0:
+			hServedID = did.DID{Method: "web", ID: hAskedID, DecodedID: "something else"} // DecodedID is not part of the identifier
+		case 1:
+			vTag("served.id")
+			hServedID = did.DID{Method: "web", ID: vString(len(hAskedID))}
+		case 2:
+			hServedID = did.DID{Method: []string{"nuts", "we", "webb"}[vChoice(3)], ID: hAskedID}
+		}
+	}
 	if hServedInvalid {
 		return errors.New("harness: not a DID document")
 	}
@@ -214,52 +229,35 @@ var h18cContentTypes = []hCT{
 }
 
 // H18c2: the decision on the answer. One id with a URL; the client fails or answers with an arbitrary status,
-// a content type from the list above (or two arbitrary bytes), a body that can fail while being read, that is
-// or is not a DID document, whose id is or is not the DID asked for.
+// a content type from the list above, a body that can fail while being read, that is or is not a DID document,
+// whose id is the DID asked for, another did:web id of the same length, or the same id under another method.
 func H18c2() {
 	idstr := "a"
 	if vBool() {
 		idstr = "a%3A1:b"
 	}
 	id := did.DID{Method: "web", ID: idstr}
+	hAskedID, hServedDraw = idstr, true
 
 	doErr := vBool()
 	vTag("status")
 	status := vRange(0, 999)
-	verdict := -1
 	hdr := http.Header{}
-	if c := vChoice(len(h18cContentTypes) + 1); c < len(h18cContentTypes) {
-		ct := h18cContentTypes[c]
-		verdict = ct.verdict
-		if !ct.absent {
-			hdr["Content-Type"] = []string{ct.value}
-		}
-	} else {
-		vCover("arbitrary-content-type")
-		vTag("content-type")
-		hdr["Content-Type"] = []string{vString(vLen(1, vParam("ctlen", 2)))} // too short to be on the allow-list
+	ct := h18cContentTypes[vChoice(len(h18cContentTypes))]
+	verdict := ct.verdict
+	if !ct.absent {
+		hdr["Content-Type"] = []string{ct.value}
 	}
 	body := &hBody{data: hServedBody, fail: vBool()}
-	hServedInvalid = vBool()
-	// the id of the served document
-	switch vChoice(3) {
-	case 0:
-		hServedID = did.DID{Method: "web", ID: idstr, DecodedID: "something else"} // DecodedID is not part of the identifier
-	case 1:
-		vTag("served.id")
-		hServedID = did.DID{Method: "web", ID: vString(len(idstr))}
-	case 2:
-		hServedID = did.DID{Method: []string{"nuts", "we", "webb"}[vChoice(3)], ID: idstr}
-	}
-	idMatch := hServedID.Method == "web" && hServedID.ID == idstr
-
 	doer := &hDoer{resp: &http.Response{StatusCode: status, Status: "status", Header: hdr, Body: body}}
 	if doErr {
 		doer.err = errors.New("harness: dial tcp: i/o timeout")
 	}
 	doc, md, err := Resolver{HttpClient: doer}.Resolve(id, nil)
 
+	idMatch := hUnmarshalled == 1 && hServedID.Method == "web" && hServedID.ID == idstr
 	vAssert(len(doer.reqs) == 1, "H18c2.one_request: not exactly one request")
+	vAssert(hUnmarshalled <= 1, "H18c2.parsed_once: body parsed more than once")
 	if err == nil {
 		vCover("resolved")
 		vAssert(doc != nil && md != nil, "H18c2.success_has_document: success without document or metadata")
@@ -267,7 +265,7 @@ func H18c2() {
 		vAssert(status >= 200 && status <= 299, "H18c2.non_2xx_is_error: resolved from a non-2xx answer")
 		vAssert(verdict >= 0, "H18c2.content_type_allowed: resolved from an answer whose content type is not on the allow-list")
 		vAssert(!body.fail, "H18c2.read_error_is_error: resolved although reading the body failed")
-		vAssert(!hServedInvalid && hUnmarshalled == 1, "H18c2.invalid_document_is_error: resolved from bytes that are not a DID document")
+		vAssert(hUnmarshalled == 1 && !hServedInvalid, "H18c2.invalid_document_is_error: resolved from bytes that are not a DID document")
 		vAssert(idMatch, "H18c2.document_id_is_did: resolved to a document whose id is not the DID asked for")
 		if doc != nil {
 			vAssert(doc.ID.Method == id.Method && doc.ID.ID == id.ID, "H18c2.returned_id_is_did: returned document id is not the DID asked for")
@@ -278,17 +276,42 @@ func H18c2() {
 	} else {
 		vCover("refused")
 		vAssert(doc == nil && md == nil, "H18c2.error_without_document: error together with a document")
-		good := !doErr && status >= 200 && status <= 299 && verdict > 0 && !body.fail && !hServedInvalid && idMatch
-		vAssert(!good, "H18c2.good_answer_resolves: a matching document served with 2xx and an allowed content type was refused")
-		if !doErr && status >= 200 && status <= 299 && verdict > 0 && !body.fail && !hServedInvalid {
-			vCover("refused-id-mismatch")
+		readable := !doErr && status >= 200 && status <= 299 && verdict > 0 && !body.fail
+		if readable {
+			vAssert(hUnmarshalled == 1, "H18c2.good_answer_is_parsed: a 2xx answer with an allowed content type was refused before its body was parsed")
+			vAssert(hServedInvalid || !idMatch, "H18c2.good_answer_resolves: a matching document served with 2xx and an allowed content type was refused")
+			if !hServedInvalid {
+				vCover("refused-id-mismatch")
+			}
 		}
 		if !doErr && status >= 200 && status <= 299 && verdict < 0 {
 			vCover("refused-content-type")
+			vAssert(hUnmarshalled == 0, "H18c2.wrong_type_not_parsed: body of an answer with a wrong content type was parsed")
 		}
 		if !doErr && (status < 200 || status > 299) {
 			vCover("refused-status")
 		}
+	}
+}
+
+// H18c3: every content type of up to ctlen bytes (none of which is on the allow-list) is refused.
+func H18c3() {
+	id := did.DID{Method: "web", ID: "a"}
+	hServedID = id
+	vTag("content-type")
+	ct := vString(vLen(0, vParam("ctlen", 1)))
+	doer := &hDoer{resp: &http.Response{StatusCode: 200, Status: "200 OK", Header: http.Header{"Content-Type": []string{ct}}, Body: &hBody{data: hServedBody}}}
+	doc, _, err := Resolver{HttpClient: doer}.Resolve(id, nil)
+	vAssert(err != nil && doc == nil && hUnmarshalled == 0, "H18c3.short_content_type_refused: an answer with a content type outside the allow-list resolved")
+}
+
+func H18c3_twin() {
+	id := did.DID{Method: "web", ID: "a"}
+	hServedID = id
+	ct := "application/jso" + vString(1)
+	doer := &hDoer{resp: &http.Response{StatusCode: 200, Status: "200 OK", Header: http.Header{"Content-Type": []string{ct}}, Body: &hBody{data: hServedBody}}}
+	if _, _, err := (Resolver{HttpClient: doer}).Resolve(id, nil); err == nil {
+		vAssert(false, "H18c3_twin.reach: reachable")
 	}
 }
 
